@@ -23,7 +23,7 @@ def fracs(W):
 
 
 def gen(R, n):
-    kind = R.rng.randrange(6)
+    kind = R.rng.choice([0, 1, 2, 3, 4, 5, 5, 5])
     if kind == 5:     # sparse but feasible: a hidden perfect assignment plus a few extra acceptable pairs, wide integer values
         hidden = list(range(n))
         R.rng.shuffle(hidden)
